@@ -86,7 +86,8 @@ class C20(Prop):
     vacuity = {"quick": ["probe:engine_retrieve_judged", "probe:engine_check_judged", "probe:engine_insert_partial_binding",
                          "probe:wildcard_level_traversed", "probe:overwrite", "probe:retrieve_multi",
                          "probe:check_true", "probe:check_false", "probe:lookup_with_extra_keys",
-                         "probe:cleared_nonempty", "probe:insert_from_reused_dict"]}
+                         "probe:cleared_nonempty", "probe:insert_from_reused_dict",
+                         "probe:retrieve_consumed_row_by_row_with_mutation"]}
     rule = ("seeded histories of insert(full|partial non-empty binding, out) / check(lookup binding >=1 key) / "
             "retrieve(lookup, drained) / clear over 1-4 integer keys given in random order and 2-3 values; "
             "campaign 'plain' never stores a wildcard entry and a concrete entry as siblings on one trie level, "
@@ -273,9 +274,22 @@ class C20(Prop):
                 if trig:
                     sim.count("probe:sibling_level_on_lookup_path")
                 try:
-                    # drained into a list first, as callers do: the resolved assignments must be independent dicts
-                    drained = list(real.retrieve(dict(l)))
-                    got = sorted(((tuple(sorted(lab(r).items())), o) for r, o in drained), key=repr)
+                    if i % 2 == 0:
+                        # drained into a list first: the resolved assignments must be independent dicts
+                        drained = list(real.retrieve(dict(l)))
+                        got = sorted(((tuple(sorted(lab(r).items())), o) for r, o in drained), key=repr)
+                    else:
+                        # consumed one row at a time, and each row is modified by the consumer before the next one is
+                        # requested (as the engine's operators do with `value.update(...)`): later rows must not
+                        # carry those modifications
+                        got = []
+                        for r, o in real.retrieve(dict(l)):
+                            got.append((tuple(sorted(lab(r).items())), o))
+                            r[424242] = vals[0]
+                            for kk in keys:
+                                r[kk] = vals[-1]
+                        got = sorted(got, key=repr)
+                        sim.count("probe:retrieve_consumed_row_by_row_with_mutation")
                     exc = None
                 except Exception as e:  # the index raising on a well-formed lookup is a wrong answer
                     got, exc = None, type(e).__name__
